@@ -1,4 +1,11 @@
 import Spq.Drv.VecZnx
+import Spq.Drv.Q120
+import Spq.Drv.Q120Ntt
+import Spq.Drv.Conv
+import Spq.Drv.Fft
+import Spq.Drv.Reim4
+import Spq.Drv.Module
+import Spq.Drv.Cache
 /- Model driver: one operation per line in, one canonical result line out. -/
 open Spq.Drv
 
@@ -7,6 +14,13 @@ def dispatch (toks : List String) : String :=
     match toks with
     | "vz" :: rest => handleVz rest
     | "kz" :: rest => handleKz rest
+    | "q1" :: rest => handleQ1 rest
+    | "qn" :: rest => handleQn rest
+    | "f6" :: rest => handleF6 rest
+    | "ff" :: rest => handleFf rest
+    | "r4" :: rest => handleR4 rest
+    | "md" :: rest => handleMd rest
+    | "ca" :: rest => handleCa rest
     | _ => none
   r.getD "bad-op"
 
